@@ -132,7 +132,9 @@ VReq2(e, r) ==
     THEN (IF Refused(e, b) THEN V("", H)
           ELSE LET cands == {[r EXCEPT !.hdrs = hh] : hh \in CanonHdrs(r.hdrs, req)}
                    okc == {c \in cands : VReq1(e, c).c = ""}
-               IN IF okc # {} THEN VReq1(e, CHOOSE c \in okc : TRUE)
+               \* several readings may explain the answer and lead to different states (which of two
+               \* upload secrets an allocation bound): all of them are followed (TraceNext branches)
+               IN IF okc # {} THEN [c |-> "", s |-> VReq1(e, CHOOSE c \in okc : TRUE).s, alts |-> {VReq1(e, c).s : c \in okc}]
                   ELSE VReq1(e, CHOOSE c \in cands : TRUE))
     ELSE VReq1(e, r)
 VReq(e) ==
@@ -177,8 +179,9 @@ TraceNext ==
          c == IF v.c # "" THEN v.c
               ELSE IF ~StateOK(v.s.S) \/ ~UpOK(v.s) THEN "StateOK"
               ELSE ""
+         alts == IF "alts" \in DOMAIN v THEN v.alts ELSE {v.s}
      IN IF c = ""
-          THEN /\ H' = v.s /\ l' = l + 1 /\ bad' = "none"
+          THEN /\ H' \in alts /\ l' = l + 1 /\ bad' = "none"
                /\ (l = Len(Events) => PrintT(<<"VF_ACCEPT", tid, l>>))
           ELSE /\ bad' = c /\ UNCHANGED <<H, l>>
                /\ PrintT(<<"VF_REJECT", tid, l, c>>)
